@@ -8,8 +8,11 @@ func init() {
 			{Name: "map-orders", Pkg: ".", Files: []string{"root/fed.go", "root/c01.go", "root/c02.go", "root/c13.go"}, Entry: "VerifDeterminism", Mode: "seq",
 				Quick: map[string]int{"k": 2, "maporder": 1}, Thorough: map[string]int{"k": 2, "maporder": 2},
 				Reach: []string{"two runs compared"}, Functions: pipelineFns},
+			{Name: "repeat-with-cache", Pkg: ".", Files: []string{"root/fed.go", "root/c01.go", "root/c02.go", "root/c13.go"}, Entry: "VerifRepeatWithCache", Mode: "seq",
+				Reach: []string{"repeat compared"}, Functions: pipelineFns},
 		},
 		Assume: []string{
+			"repeat-with-cache: every ordered pair (B, A) of the README scenario operations: B, A, B sent to one gateway with the caching planner; both answers to B are compared",
 			"map iteration order is a symbolic choice for up to `maporder` range loops of the code under test per run (each such loop runs in insertion order, reversed, or rotated by one), insertion order for the others",
 			"self-composition: the same operation is sent twice to the same gateway and the observables are compared",
 			"gqlparser native; canonical goroutine schedule (interleavings are covered by C08/C11/C20)",
